@@ -653,8 +653,9 @@ def scripted_histories():
 
 # --------------------------------------------------------------------------- one history
 
-FRESH_ONLY = {"amend", "amendD", "arith:plus", "arith:times", "arith:minus", "size", "over:plus", "over:times",
-              "over:max", "over:min", "scan:plus", "scan:times"}
+# verbs whose result must never share memory with an existing array (Over is not one of them: the
+# interpreted Over of a one-element list returns that element, e.g. the row of a one-row matrix)
+FRESH_ONLY = {"amend", "amendD", "arith:plus", "arith:times", "arith:minus", "size", "scan:plus", "scan:times"}
 
 
 def top_verb(st):
